@@ -237,3 +237,7 @@ def gen_chains(ctx):
 
 UNITS = [Unit("binarize", gen_binarize, check_binarize, shards=(2, 8)),
          Unit("chains", gen_chains, check_chains, shards=(2, 8))]
+
+
+from vlib import clidiff
+UNITS.append(clidiff.unit("C14"))
